@@ -1,8 +1,9 @@
-"""C07 - pocket sweep: no stale row index / column view after a row-inserting call (INVAL I1-I3)."""
+"""C07 - pocket sweep: no stale row index / column view after a row-inserting call (INVAL I1-I3); the pocket-free column is recomputed
+whenever the derived curves are (COL-CACHE: its own contents never decide whether the sweep runs)."""
 from ..core.model import Program
 from ..core.report import CheckContext
 from ..core.resolve import Resolver
-from ..rules import inval, tables
+from ..rules import colcache, inval, tables
 from .common import run_control, generic_rules
 
 
@@ -20,6 +21,7 @@ def analyse(ctx: CheckContext, p: Program):
     ctx.guard(inval.check_source_column_readonly, ctx, eng)
     ctx.guard(inval.check_mirrored_branches, ctx, eng)
     ctx.guard(inval.check_between_pinches, ctx, p, r)
+    ctx.guard(colcache.check_column_not_cache, ctx, p, r, funcs)
     # the rebase amount is trustworthy: the returned count is the number of rows the buffer grew by
     ctx.guard(tables.check_insert_count, ctx, p, r)
 
@@ -36,6 +38,8 @@ def run(ctx: CheckContext):
     g = "OpenPinch/analysis/gcc_manipulation.py"
     run_control(ctx, "C07/last-row-between-pinches-kept", analyse, p.root, "OpenPinch/analysis/gcc_manipulation.py",
                 "for j in range(hot_pinch_loc + 1, cold_pinch_loc):", "for j in range(hot_pinch_loc + 1, cold_pinch_loc - 1):", "BETWEEN")
+    run_control(ctx, "C07/pocket-free-column-as-cache", analyse, p.root, g, "    get_GCC_without_pockets(pt)\n",
+                "    if np.isnan(pt.col[PT.H_NET_NP.value]).all():\n        get_GCC_without_pockets(pt)\n", "COL-CACHE")
     run_control(ctx, "C07/zeroing-into-a-copy", analyse, p.root, "OpenPinch/analysis/gcc_manipulation.py",
                 "            pt.loc[j, col_H_NP] = 0", "            pt.cols[[col_H_NP]][j] = 0", "LOST-UPDATE")
     run_control(ctx, "C07/stale-pinch-copy", analyse, p.root, g,
